@@ -57,6 +57,10 @@ def analyse(r, res):
                 harness_problems.append((i, part))
             else:
                 other.append((i, part))
+    # a generator panic on a type-checked package is neither a binding nor a refusal with a diagnostic
+    for i, c in enumerate(cases):
+        if c.startswith("dec.assign ") and i < len(impl) and impl[i].startswith("panic") and not any(j == i for j, _ in hits):
+            hits.append((i, "C06: the generator panicked instead of binding the actions or refusing with a diagnostic: " + impl[i][:300]))
     npk = sum(1 for c in cases if c.startswith("dec.assign "))
     r.cov["programs"] = npk
     r.cov["assign_counters"] = counters
